@@ -4236,6 +4236,15 @@ class FlowIR(object):
         # VV: Recursively convert the component in-place
         convert(comp, expected_types, 'stage%s.%s' % (comp['stage'], comp['name']))
 
+        # VV: The platform-overrides hold options too (their variables have been substituted along with the rest of
+        #     the component), they must end up with the same types as the options of the component itself
+        overrides = comp.get('override')
+        if isinstance(overrides, dict):
+            for platform_name in overrides:
+                if isinstance(overrides[platform_name], dict):
+                    convert(overrides[platform_name], expected_types, 'stage%s.%s.override.%s' % (
+                        comp['stage'], comp['name'], platform_name))
+
         if original_out_errors is None and len(out_errors):
             raise experiment.model.errors.FlowIRFailedComponentConvertType(comp, out_errors)
 
